@@ -5329,8 +5329,10 @@ class LoopSum(Loop):
     def _multiply(self, other):
         # If `other` depends on `self.index`, e.g. because `self` is the inner
         # loop of two nested `LoopSum`s over the same index, then we should not
-        # move `other` inside this loop.
-        if self.index not in other.arguments:
+        # move `other` inside this loop. The same holds if `other` contains a
+        # loop over the same index, which would otherwise end up nested inside
+        # this loop.
+        if self.index not in other.arguments and not any(loop.loop_id == self.loop_id for loop in other._loops):
             return loop_sum(self.func * other, self.index)
 
     @cached_property
